@@ -312,8 +312,7 @@ type Frame struct {
 func GC() {}
 
 func Goexit() {
-	js.Global.Get("$curGoroutine").Set("exit", true)
-	js.Global.Call("$throw", nil)
+	js.Global.Call("$goexit")
 }
 
 func GOMAXPROCS(int) int { return 1 }
